@@ -558,7 +558,7 @@ func TestConcurrentGlob(t *testing.T) {
 	var wg sync.WaitGroup
 	var mu sync.Mutex
 	var bad []string
-	rounds := h.N(3, 30)
+	rounds := h.N(12, 60)
 	for g := 0; g < 8; g++ {
 		wg.Add(1)
 		go func(g int) {
